@@ -1,4 +1,233 @@
-import NiflyVerif.TexPath
+import NiflyVerif.TexPathLemmas
+/-!
+# C19 — texture path clean-up is canonical and idempotent
+
+`clean cfg` is the model of the clean-up lambda (see `TexPath.lean`). `std` is the configuration of
+every game that wants the `textures\` prefix, not loaded as terrain (FO3, Skyrim LE/SE, FO4, FO76,
+Starfield); for it the property is proved at full strength. For Oblivion-style versions and for
+terrain files full idempotence is FALSE on the pinned code; the negations are proved below with
+concrete witnesses (each replayed on the implementation by the check: they are the recorded known
+findings) and the part that does hold is proved as `…_partial`.
+-/
 namespace Nifly.TexPath
-theorem clean_nil (cfg : Cfg) : clean cfg [] = [] := rfl
+
+def std : Cfg := ⟨false, false⟩
+
+/-- the part of the pipeline before prefixes are added -/
+def core (s : Str) : Str := stripLeadingBs (stripToTextures (collapse (trim s)))
+
+theorem clean_eq (cfg : Cfg) (s : Str) (h : trim s ≠ []) :
+    clean cfg s =
+      let t := if cfg.noTexPrefix then core s else addPrefix texturesBs (core s)
+      if cfg.terrain then addPrefix dataBs t else t := by
+  have hs : s ≠ [] := by intro h'; subst h'; exact h rfl
+  unfold clean core
+  simp [hs, h]
+
+/-- empty and blank paths become empty (every configuration) -/
+theorem clean_blank (cfg : Cfg) (s : Str) (h : trim s = []) : clean cfg s = [] := by
+  unfold clean
+  by_cases hs : s = []
+  · simp [hs]
+  · simp [hs, h]
+
+theorem okSep_core (s : Str) : okSep (core s) = true := by
+  unfold core stripLeadingBs stripToTextures
+  apply okSep_dropWhile
+  have hc := okSep_collapse (trim s)
+  split
+  · exact hc
+  · cases hcut : cutFirst (collapse (trim s)) with
+    | none => simpa using hc
+    | some r =>
+      obtain ⟨n, hn⟩ := cutFirst_suffix _ _ hcut
+      simp only [Option.getD_some, hn]
+      exact okSep_drop _ _ hc
+
+theorem core_head (s : Str) : (core s).head? ≠ some 92 := by
+  unfold core stripLeadingBs
+  have := List.head?_dropWhile_not (· == 92) (stripToTextures (collapse (trim s)))
+  intro h
+  rw [h] at this
+  simp at this
+
+theorem lastOk_core (s : Str) : lastOk (core s) := by
+  unfold core stripLeadingBs stripToTextures
+  have h1 : lastOk (collapse (trim s)) := collapse_getLast _ (trim_props s).2
+  obtain ⟨n, hn⟩ := dropWhile_eq_drop (· == 92) (if startsWithCI (collapse (trim s)) texturesBs then collapse (trim s) else (cutFirst (collapse (trim s))).getD (collapse (trim s)))
+  rw [hn]
+  apply lastOk_drop
+  split
+  · exact h1
+  · cases hcut : cutFirst (collapse (trim s)) with
+    | none => simpa using h1
+    | some r =>
+      obtain ⟨m, hm⟩ := cutFirst_suffix _ _ hcut
+      simp only [Option.getD_some, hm]
+      exact lastOk_drop _ _ h1
+
+theorem okSep_addPrefix_textures (t : Str) (h : okSep t = true) (hh : t.head? ≠ some 92) :
+    okSep (addPrefix texturesBs t) = true := by
+  unfold addPrefix
+  split
+  · exact h
+  · have : okSep (92 :: t) = true := okSep_cons h (by decide) (fun _ => hh)
+    simp only [texturesBs, List.cons_append, List.nil_append]
+    simp only [okSep]
+    simp [this]
+
+theorem okSep_addPrefix_data (t : Str) (h : okSep t = true) (hh : t.head? ≠ some 92) :
+    okSep (addPrefix dataBs t) = true := by
+  unfold addPrefix
+  split
+  · exact h
+  · have : okSep (92 :: t) = true := okSep_cons h (by decide) (fun _ => hh)
+    simp only [dataBs, List.cons_append, List.nil_append]
+    simp only [okSep]
+    simp [this]
+
+theorem addPrefix_head (p t : Str) (hp : p.head? ≠ some 92) (hh : t.head? ≠ some 92) :
+    (addPrefix p t).head? ≠ some 92 := by
+  unfold addPrefix
+  split
+  · exact hh
+  · cases p with
+    | nil => simpa using hh
+    | cons a p => simpa using hp
+
+/-- **Separators are canonical in every configuration**: the cleaned path contains no forward
+slash and no two adjacent backslashes. -/
+theorem clean_separators (cfg : Cfg) (s : Str) : okSep (clean cfg s) = true := by
+  by_cases h : trim s = []
+  · rw [clean_blank cfg s h]; rfl
+  · rw [clean_eq cfg s h]
+    have hc := okSep_core s
+    have hh := core_head s
+    cases cfg with
+    | mk o t =>
+      cases o <;> cases t <;> simp only [Bool.false_eq_true, if_false, if_true]
+      · exact okSep_addPrefix_textures _ hc hh
+      · exact okSep_addPrefix_data _ (okSep_addPrefix_textures _ hc hh) (addPrefix_head _ _ (by decide) hh)
+      · exact hc
+      · exact okSep_addPrefix_data _ hc hh
+
+theorem startsWithCI_addPrefix (p t : Str) : startsWithCI (addPrefix p t) p = true := by
+  unfold addPrefix
+  split
+  · assumption
+  · exact startsWithCI_append p t
+
+/-- **Prefix**: for the games that need it a non-blank path ends up with the `textures\` prefix
+(any letter case), and terrain paths with `Data\`. -/
+theorem clean_prefix (cfg : Cfg) (s : Str) (h : trim s ≠ []) (hn : cfg.noTexPrefix = false) :
+    startsWithCI (clean cfg s) (if cfg.terrain then dataBs else texturesBs) = true := by
+  rw [clean_eq cfg s h]
+  cases cfg with
+  | mk o t =>
+    simp only at hn; subst hn
+    cases t <;> simp only [Bool.false_eq_true, if_false, if_true] <;> exact startsWithCI_addPrefix _ _
+
+/-- last character of a string with a prefix added -/
+theorem lastOk_addPrefix_textures (t : Str) (h : lastOk t) : lastOk (addPrefix texturesBs t) := by
+  unfold addPrefix
+  split
+  · exact h
+  · intro c hc
+    by_cases ht : t = []
+    · subst ht; simp [texturesBs] at hc; subst hc; decide
+    · rw [List.getLast?_append] at hc
+      cases hl : t.getLast? with
+      | none => exact absurd (List.getLast?_eq_none_iff.mp hl) ht
+      | some d => rw [hl] at hc; simp at hc; subst hc; exact h d hl
+
+/-- **Idempotence, standard configuration** (full strength): cleaning a cleaned path changes nothing. -/
+theorem clean_idem_std (s : Str) : clean std (clean std s) = clean std s := by
+  by_cases h : trim s = []
+  · rw [clean_blank std s h]; rfl
+  · have hr : clean std s = addPrefix texturesBs (core s) := by
+      rw [clean_eq std s h]; rfl
+    generalize hrr : clean std s = r at hr
+    have hpre : startsWithCI r texturesBs = true := by rw [hr]; exact startsWithCI_addPrefix _ _
+    have hok : okSep r = true := by rw [hr]; exact okSep_addPrefix_textures _ (okSep_core s) (core_head s)
+    have hlast : lastOk r := by rw [hr]; exact lastOk_addPrefix_textures _ (lastOk_core s)
+    obtain ⟨c, cs, hrc, hlow⟩ := startsWithCI_head (p := [101, 120, 116, 117, 114, 101, 115, 92]) (a := 116) hpre
+    have hc116 : lower c = 116 := by simpa [lower] using hlow
+    have hcsp : isSpace c = false := by
+      unfold lower at hc116
+      simp only [isSpace]
+      split at hc116 <;> simp <;> omega
+    have hc92 : c ≠ 92 := by
+      intro h92; subst h92; simp [lower] at hc116
+    have htrim : trim r = r := trim_id r (by intro x hx; rw [hrc] at hx; simp at hx; subst hx; exact hcsp) hlast
+    have hne : trim r ≠ [] := by rw [htrim, hrc]; simp
+    rw [clean_eq std r hne]
+    simp only [std, Bool.false_eq_true, if_false]
+    have hcore : core r = r := by
+      unfold core stripLeadingBs stripToTextures
+      rw [htrim, collapse_of_okSep r hok]
+      simp only [hpre, if_true]
+      rw [hrc]
+      simp [List.dropWhile_cons, hc92]
+    rw [hcore]
+    unfold addPrefix
+    simp [hpre]
+
+/-- non-vacuity and shape of the result in the standard configuration:
+`  /Data//Textures/x.dds \n` becomes `Textures\x.dds`… with the existing folder name kept. -/
+example : clean std [32, 32, 47, 68, 97, 116, 97, 47, 47, 84, 101, 120, 116, 117, 114, 101, 115, 47, 120, 46, 100, 100, 115, 32, 10]
+    = [116, 101, 120, 116, 117, 114, 101, 115, 92, 120, 46, 100, 100, 115] := by decide
+
+/-- mixed separator runs are one backslash: `a/\b` ↦ `textures\a\b` -/
+example : clean std [97, 47, 92, 98] = texturesBs ++ [97, 92, 98] := by decide
+
+/-! ### where full idempotence fails on the pinned code (recorded known findings) -/
+
+/-- Oblivion-style versions: `a\textures\b\textures\c` ↦ `b\textures\c` ↦ `c` -/
+theorem clean_idem_ob_false :
+    ∃ s, clean ⟨true, false⟩ (clean ⟨true, false⟩ s) ≠ clean ⟨true, false⟩ s :=
+  ⟨[97, 92] ++ texturesBs ++ [98, 92] ++ texturesBs ++ [99], by decide⟩
+
+/-- terrain: `TEXTURES/a.dds` ↦ `Data\TEXTURES\a.dds` ↦ `Data\textures\a.dds` -/
+theorem clean_idem_terrain_false :
+    ∃ s, clean ⟨false, true⟩ (clean ⟨false, true⟩ s) ≠ clean ⟨false, true⟩ s :=
+  ⟨[84, 69, 88, 84, 85, 82, 69, 83, 47, 97, 46, 100, 100, 115], by decide⟩
+
+/-- Oblivion-style + terrain: `textures\a.dds` ↦ `Data\textures\a.dds` ↦ `Data\a.dds` -/
+theorem clean_idem_ob_terrain_false :
+    ∃ s, clean ⟨true, true⟩ (clean ⟨true, true⟩ s) ≠ clean ⟨true, true⟩ s :=
+  ⟨texturesBs ++ [97, 46, 100, 100, 115], by decide⟩
+
+/-- what does hold for Oblivion-style versions: a cleaned path that has no `\textures\` segment
+left and does not start with whitespace is a fixed point. -/
+theorem clean_idem_ob_partial (s : Str)
+    (hseg : cutFirst (clean ⟨true, false⟩ s) = none ∨ startsWithCI (clean ⟨true, false⟩ s) texturesBs = true)
+    (hsp : ∀ c, (clean ⟨true, false⟩ s).head? = some c → isSpace c = false) :
+    clean ⟨true, false⟩ (clean ⟨true, false⟩ s) = clean ⟨true, false⟩ s := by
+  by_cases h : trim s = []
+  · rw [clean_blank _ s h]; rfl
+  · have hr : clean ⟨true, false⟩ s = core s := by rw [clean_eq _ s h]; rfl
+    generalize clean ⟨true, false⟩ s = r at hr hseg hsp
+    have hok : okSep r = true := by rw [hr]; exact okSep_core s
+    have hlast : lastOk r := by rw [hr]; exact lastOk_core s
+    have hh : r.head? ≠ some 92 := by rw [hr]; exact core_head s
+    have htrim : trim r = r := trim_id r hsp hlast
+    by_cases hne : r = []
+    · subst hne; rfl
+    · rw [clean_eq _ r (by rw [htrim]; exact hne)]
+      simp only [Bool.false_eq_true, if_false, if_true]
+      unfold core stripLeadingBs stripToTextures
+      rw [htrim, collapse_of_okSep r hok]
+      have hstrip : (if startsWithCI r texturesBs = true then r else (cutFirst r).getD r) = r := by
+        rcases hseg with h1 | h1
+        · split
+          · rfl
+          · rw [h1]; rfl
+        · simp [h1]
+      rw [hstrip]
+      cases r with
+      | nil => rfl
+      | cons a l =>
+        have : a ≠ 92 := by intro h92; subst h92; exact hh rfl
+        simp [List.dropWhile_cons, this]
+
 end Nifly.TexPath
